@@ -602,6 +602,133 @@ def r3(db, rep):
                 rep.violation("R3-raw-writes", key, site, msg)
     if n_fn < 28:
         rep.analysis_broken("only %d write_serialization bodies found" % n_fn)
+    r3_regions(db, rep)
+
+
+def r3_regions(db, rep):
+    """raw writes at symbolic offsets (ICMP / ICMPv6 extension block and its padding): with E-STREAMFX every destination
+    and length is a form over the same terms as header_size()/trailer_size(); on every cell of the condition partition in
+    which the write executes it must lie in the layer's trailer region [H + inner, H + inner + T)"""
+    for K in sorted(RAW_TRAILER):
+        w = final(db, K, "write_serialization", "(unsigned char *, unsigned int)")
+        h = final(db, K, "header_size", "() const")
+        t = final(db, K, "trailer_size", "() const")
+        short = K.split("::")[-1]
+        if w is None or h is None or t is None:
+            rep.analysis_broken("%s: serialiser / size functions not found" % K)
+            continue
+        fx = sx.Fx(db, K)
+        cnt = {}
+        for b in [K] + list(db.all_bases(K)):
+            cnt.update(COUNTERS.get(b, {}))
+        try:
+            H = fx.exec_fn(sx.Ctx(fx, h, cls=K)).get("§ret")
+            T = fx.exec_fn(sx.Ctx(fx, t, cls=K)).get("§ret")
+            cw = sx.Ctx(fx, w, cls=K)
+            fx.exec_list(cw, w["body"].get("c", []), {"§ret": None})
+        except sx.Opaque as e:
+            rep.analysis_broken("%s: %s" % (K, e))
+            continue
+        raws = [r for r in fx.rawlog if r[1] is not None and not (r[1].is_const() and r[2] is not None and r[2].is_const())]
+        if not raws:
+            rep.analysis_broken("%s: no symbolic raw write found (extension placement expected)" % K)
+            continue
+        for i, (cn, dest, ln, guards, node, ctx) in enumerate(raws):
+            key = "%s:region:%s#%d" % (short, cn, i + 1)
+            cells = sx.Cells(fx)
+            try:
+                d2, h2 = cancel_counters(dest, H, cnt)
+                rel = d2 - h2                       # offset of the write from the end of this layer's header
+                forms = [rel, T] + ([ln] if ln is not None else [])
+                for fm in forms:
+                    cells.collect(fm)
+                for c, _ in guards:
+                    cells.collect_cond(c)
+                cells.terms.setdefault("inner_pdu_.size()", set()).update([0, 1, 2, 3, 4, 5, 126, 127, 128, 129, 130, 131, 132])
+                for fm in forms:
+                    for a in sx.all_atoms(fm):
+                        if a.endswith(".size()") and a != "inner_pdu_.size()":
+                            cells.terms[a] = set([0, 8, 12])
+                bad = None
+                n_ok = 0
+                for cell in cells.assignments(400000):
+                    if not consistent(cell):
+                        continue
+                    if not all(bool(sx.eval_cond(fx, c, cell)) == pol for c, pol in guards):
+                        continue
+                    inner = cell.get("inner_pdu_.size()", 0) if cell.get("inner_pdu_", 1) else 0
+                    tv = sx.flat_value(fx, T, cell)
+                    dv = sx.flat_value(fx, rel, cell)
+                    if tv is None or dv is None:
+                        continue
+                    lo, hi = inner, inner + tv
+                    cellc = dict(cell)
+                    lv = None
+                    if ln is not None:
+                        # total_sz >= header + payload + trailer: take the tightest buffer
+                        lnf = ln
+                        if "total_sz" in sx.all_atoms(ln):
+                            lnf = c02_subst_total(ln, H)
+                            cellc["§rest"] = hi
+                        lv = sx.flat_value(fx, lnf, cellc)
+                    else:
+                        lv = 0
+                    if lv is None:
+                        continue
+                    n_ok += 1
+                    if lv > 0 and (dv < lo or dv + lv > hi):
+                        what = "into the inner layer's bytes" if 0 <= dv < lo else ("into its own header" if dv < 0 else "past its trailer")
+                        bad = "%s of %d byte(s) at header end + %d, but behind this layer's header the payload occupies [0, %d) and its trailer [%d, %d): it writes %s [when %s]" % (
+                            cn, lv, dv, lo, lo, hi, what, ", ".join("%s=%s" % kv for kv in sorted(cell.items())))
+                        break
+            except (sx.Opaque, ieval_unknown()) as e:
+                rep.undecided("R3-raw-writes", key, facts.loc(w, node), "outside the evaluator: %s" % e)
+                continue
+            if bad:
+                rep.violation("R3-raw-writes", key, facts.loc(w, node), bad)
+            elif n_ok == 0:
+                rep.undecided("R3-raw-writes", key, facts.loc(w, node), "no cell of the partition could be evaluated numerically")
+            else:
+                rep.ok("R3-raw-writes", key, facts.loc(w, node), "inside [header + payload, header + payload + trailer) on all %d evaluated cells" % n_ok)
+
+
+def cancel_counters(A, B, cnt):
+    """A holds SUM(container, ...) where B holds the container's cached counter (equal by the cache-pair rule): drop both"""
+    a = sx.Form(A.k, dict(A.atoms), list(A.whens), list(A.sums))
+    b = sx.Form(B.k, dict(B.atoms), list(B.whens), list(B.sums))
+    for cn, cont in (cnt or {}).items():
+        if b.atoms.get(cn) == 1 and sum(co for co, ct, f in a.sums if ct == cont) == 1:
+            del b.atoms[cn]
+            a.sums = [x for x in a.sums if x[1] != cont]
+    return a, b
+
+
+def c02_subst_total(form, H):
+    """total_sz := header + (payload + trailer), the latter supplied per cell as the atom §rest"""
+    f = subst_atom(form, "total_sz", "§rest")
+    co = form.atoms.get("total_sz", 0)
+    return f + H.scale(co)
+
+
+def consistent(cell):
+    """relations between the terms of the ICMP/ICMPv6 size functions that hold by definition of the accessors"""
+    import re
+    sz = cell.get("inner_pdu_.size()")
+    if "has_extensions()" in cell and "extensions_.size()" in cell:
+        # has_extensions() <=> the structure holds at least one extension (4 bytes of header + >= 4 bytes of object)
+        if bool(cell["has_extensions()"]) != (cell["extensions_.size()"] >= 8):
+            return False
+    for t, v in cell.items():
+        mm = re.match(r"^\(inner_pdu_size % (\d+)\)$", t)
+        if mm and sz is not None and cell.get("inner_pdu_", 1):
+            if v != sz % int(mm.group(1)):
+                return False
+    return True
+
+
+def ieval_unknown():
+    from vlib import ieval
+    return ieval.Unknown
 
 
 def const_offset(f, e, tainted, pb):
